@@ -1,5 +1,6 @@
 import Feox.Fmt.Recover
 import Feox.Fmt.Migrate
+import Feox.Fmt.RepCheck
 import Feox.Proto.Generations
 /-! Line-protocol front end for the `Fmt` model. -/
 namespace Feox.Drv.FmtDrv
@@ -72,6 +73,32 @@ def showRecovered (r : Recovered) : String :=
   s!"live=[{",".intercalate lives}] free=[{free}] body={(fnv body).toNat}"
 
 def b2n (s : String) : Bool := s == "1"
+
+/-- `ok rt=1 n=<records>` when the image represents a tiling of its data area by exactly the table's
+records (`Fmt.repTiledB`, whose `true` answer `Fmt.repTiled_sound` turns into a statement about the
+recovery scan); otherwise which half failed -/
+def repLine (img : Image) (v : Nat) (lives : List Live) : String :=
+  let lo := FEOX_DATA_START_BLOCK
+  let total := img.size
+  if repTiledB img v lo total lives then s!"ok rt=1 n={lives.length}"
+  else
+    let d := labelOf img v lives
+    let rep := repB img v lo total (infoOf lives) d
+    let bad := (List.range (total - lo)).find? fun i => !decide (RepAt img v (infoOf lives) d (lo + i))
+    let tl := match tileOf d total (total - lo + 1) lo with
+      | some L => s!"tiled:{L.length}"
+      | none => "untiled"
+    let junk := (List.range (total - lo)).find? fun i => d (lo + i) == Feox.Proto.Blk.junk
+    s!"ok rt=0 n={lives.length} rep={if rep then 1 else 0} badblock={match bad with | some i => toString (lo + i) | none => "-"} {tl} junk={match junk with | some i => toString (lo + i) | none => "-"}"
+
+def parseLives (s : String) : Option (List Live) :=
+  if s == "-" then some []
+  else (s.splitOn ",").mapM fun e =>
+    match e.splitOn ":" with
+    | [k, ts, ex, vl, sec] => do
+      let k ← unhex k; let ts ← ts.toNat?; let ex ← ex.toNat?; let vl ← vl.toNat?; let sec ← sec.toNat?
+      pure ⟨k, ts, ex, vl, sec, 0⟩
+    | _ => none
 
 /-- pure commands; `recover` needs IO and is handled in `handleIO` -/
 def handle (args : List String) : Option String :=
@@ -167,6 +194,26 @@ def handleIO (args : List String) : IO (Option String) := do
           let img' := applyIo img out.io
           let body := if img' == img then "same" else toString (bodyDigest img')
           s!"{rerrName e} body={body} writes={out.io.length}"))
+    | _, _ => pure none
+  | ["reptiled", path, ro, amb, ttl, now, recsize] =>
+    -- the device as recovery leaves it must represent a tiling by the recovered index (Fmt.RepCheck)
+    match now.toNat?, recsize.toNat? with
+    | some now, some rs =>
+      let raw ← IO.FS.readBinFile path
+      let img := imageOfBytes raw
+      let o : Opts := { readOnly := b2n ro, allowAmbiguous := b2n amb, ttlOn := b2n ttl, now := now, recSize := rs }
+      let out := recoverImage img raw.size o
+      pure (some (match out.result with
+        | .ok r => repLine r.image r.version r.live
+        | .error e => rerrName e))
+    | _, _ => pure none
+  | ["repfile", path, v, lives] =>
+    -- a file as the store left it, against the index the store reported (key:ts:expiry:valueLen:sector,…)
+    match v.toNat?, parseLives lives with
+    | some v, some ls =>
+      let raw ← IO.FS.readBinFile path
+      let img := imageOfBytes raw
+      pure (some (repLine img v (ls.map fun l => { l with blocks := extentBlocks v l.key.length l.valueLen })))
     | _, _ => pure none
   | ["gens", now, gens] =>
     -- generation-level view (Proto.Generations): what a completed recovery exposes per key
